@@ -18,6 +18,9 @@ CHECKS = {
     "C10": dict(engine="shim", design="5/C10", technique="TLA+ ShimAgent spec with fault actions: TLC exhaustive + LTS replay + fault-step trace validation",
         text="C10_Step (hardware-certificate admission, exact pass-through listing, signature under the certificate key, add/remove effects, byte-identical Forward, construction and every fault kind of the underlying agent on every request kind) is model-checked on the fault model and every deterministic transition replayed; faulted steps and construction through New() over a unix socket are recorded and judged by TLC.",
         note="fault kinds: failure reply, garbage, wrong-kind reply, oversized frame, closed connection, applied to the first request of a chosen kind per operation; one known finding (wrong-kind reply panics inside x/crypto) is listed in known_findings.txt"),
+    "C11": dict(engine="conc", design="5/C11", technique="TLA+ ShimConc micro-step model with MEASURED lock table (TLC, 2-3 threads, safety + liveness) + forced-overlap schedules under the race detector + TLC linearisation search (TraceLin) of concurrent batches",
+        text="The lock mode of Server.mu during every upstream request of every operation is measured on the real code (TryLock/TryRLock probes while the proxy withholds the reply) and written into the ShimConc configuration; TLC checks table/wire mutual exclusion, own-reply and completion for all interleavings of 2 (quick) / 3 (thorough) threads over all operation kinds. Every ordered pair of operations is run with A suspended inside each of its upstream requests while B starts (race detector + frame-aware monitor on the single upstream connection + watchdog), and batches of 2..16 goroutines are recorded and TLC searches a sequential ordering of the ShimAgent design that explains every result and the final state.",
+        note="verdicts come only from real-code observations (race report, overlapping frames, hang, batch without sequential explanation); a model counterexample that is not reproduced is exit 2; Prog (segment sequence per operation) is transcribed by reading, LockMode and raw/call are measured"),
 }
 
 checks = []
@@ -43,6 +46,8 @@ m = {
     "engines": [
         {"name": "shim", "path": "tools/fam_shim.py", "serves_properties": ["C07", "C08", "C09", "C10"],
          "kind_free_text": "spec/ShimAgent.tla + MCShim/TraceShim, TLC, Go harness harness/shim overlaid into agent/shimagent"},
+        {"name": "conc", "path": "tools/fam_conc.py", "serves_properties": ["C11"],
+         "kind_free_text": "spec/ShimConc.tla + MCConc (measured lock table) + TraceLin.tla, TLC, Go harness harness/conc built with -race"},
     ],
     "checks": checks,
     "not_applicable": [{"property_id": p["id"], "reason": "check not built yet (build in progress, see DESIGN.md section 9)"}
